@@ -73,7 +73,10 @@ def fields_of(node):
     out = []
     for path, n in walk(node):
         for k in sorted(n.attributes):
-            if k not in DISCRIMINATORS and not (k == "from" and n.attributes[k] in ("s.whatsapp.net", "g.us")):
+            if k in DISCRIMINATORS and len(path) >= 2 and k in ("type", "status", "kind"):
+                # a discriminator-like attribute deep inside the stanza (a participant's type, an item's status) is data of that entry
+                out.append(["attr", list(path), k])
+            elif k not in DISCRIMINATORS and not (k == "from" and n.attributes[k] in ("s.whatsapp.net", "g.us")):
                 out.append(["attr", list(path), k])
         if n.getData() is not None and len(n.getAllChildren()) == 0 and n.tag not in ("type", "proto"):      # proto payloads: C10
             out.append(["data", list(path)])
@@ -91,6 +94,8 @@ def kind_of(v, name=None):
     if isinstance(v, bytes):
         return "bytes"
     v = str(v)
+    if name in ("type", "status", "kind"):
+        return "enum"
     if name in ("offline", "last", "passive", "from_me") and v in ("0", "1"):
         return "flag01"
     if name in FREE_TEXT:
@@ -113,6 +118,9 @@ def gen_value(r, kind, old):
         if "-" in str(old):
             return "%d-%d@g.us" % (r.randint(10 ** 9, 10 ** 11), r.randint(10 ** 9, 2 * 10 ** 9))
         return "%d@s.whatsapp.net" % r.randint(10 ** 9, 10 ** 12)
+    if kind == "enum":
+        # another value of an enumerated attribute: the peer's vocabulary is larger than the documented example
+        return r.choice(["admin", "superadmin", "member", "active", "expired", "paid", "free", "success", "x-unknown"])
     if kind == "flag":
         return r.choice(["true", "false"])
     if kind == "flag01":
@@ -258,11 +266,12 @@ def apply(base, muts):
             c = clone(same[i % len(same)])
             if i >= len(same):
                 # a further list entry: give it its own key (jid / id) so that it is a different entry
-                for _p, nn in walk(c):
+                for ni, (_p, nn) in enumerate(walk(c)):
                     for k in ("jid", "id", "participant"):
                         v = nn.attributes.get(k)
                         if isinstance(v, str) and "@" in v:
-                            nn.attributes[k] = "%d%s" % (7000000 + i, v[v.index("@") - 4:] if v.index("@") >= 4 else v[v.index("@"):])
+                            # (unique per copy AND per node inside the copy: two participants of one copied group must stay two)
+                            nn.attributes[k] = "%d%02d%s" % (7000000 + i, ni % 100, v[v.index("@") - 4:] if v.index("@") >= 4 else v[v.index("@"):])
                         elif isinstance(v, str) and v:
                             nn.attributes[k] = v + str(i)
                     d0 = nn.getData()
